@@ -29,6 +29,14 @@ def protoStep (toks : List String) : Option String :=
     let tail := match r with
       | some .invalid => "END invalid" | some .eof => "END eof" | some (.frame _) => "END ?" | none => "END fuel"
     some (String.intercalate " " (fs.map (fun f => "F " ++ toHex f) ++ [tail]))
+  | "framesb" :: cap :: chunks =>
+    -- the caller's buffer holds `cap` bytes: ReadFrom reports the full frame size and copies what fits
+    let cs := chunks.map parseHex
+    let total := (cs.map List.length).sum
+    let (fs, r) := readAll (total + 1) cs []
+    let tail := match r with
+      | some .invalid => "END invalid" | some .eof => "END eof" | some (.frame _) => "END ?" | none => "END fuel"
+    some (String.intercalate " " (fs.map (fun f => s!"F {f.length} " ++ toHex (f.take (natOf cap))) ++ [tail]))
   | ["lifetime", "add", n] => some (toHex (lifetimeAdd (natOf n)))
   | ["lifetime", "get", v] => some (showRes toString (lifetimeGet (optHex v)))
   | ["connid", "add", n] => some (toHex (connIdAdd (natOf n)))
